@@ -14,7 +14,7 @@ from ..runner import Acc
 ID = 'C19'
 LEVEL = 'model_checking'
 RULE = ('programs (facts, rules with cut / if-then-else / negation, atoms with embedded newlines and with a # after a '
-        'newline, atoms containing every other line separator (bare CR, CR LF, VT, FF, FS/GS/RS, NEL, LS, PS), non-ASCII atoms, atoms with NUL and other control characters, a 140 KiB source with two-byte characters at even and odd offsets, lists and anonymous variables, empty and comment-only files, a syntax error, a character outside the lexicon, 400 nested redundant parentheses, a '
+        'newline, atoms containing every other line separator (bare CR, CR LF, VT, FF, FS/GS/RS, NEL, LS, PS), non-ASCII atoms, atoms with NUL and other control characters, a 140 KiB source with two-byte characters at even and odd offsets, lists and anonymous variables, empty and comment-only files, a syntax error, a character outside the lexicon, 400 and 600 nested redundant parentheses (for 600 the command line must decide as the library does, for every flag combination), a '
         'non-callable goal, a clause too large for Python, an unsupported term) x ALL 16 combinations of -d '
         '--debug-parser --debug-generator --debug-filename x {stdout, -o file that already exists with longer content} x {file argument, - with the text on '
         'standard input, the path /dev/stdin fed from a pipe (a source that is not a regular file)} x {one source, two sources, a second source that does not compile, a first source that does not compile followed by this one, a first source that stops in the middle of a clause followed by this one}, each run as a real '
@@ -51,10 +51,11 @@ PROGRAMS = [
     ('lexical-error', 'foo(a).\nbar(b#).\nbaz(c).\n', 'syntax'),
     # redundant parentheses: deep for the parser and the visitor, flat for the generated code
     ('deep-parentheses', 'p(%sa%s).\n' % ('(' * 400, ')' * 400), 'ok'),
+    ('very-deep-parentheses', 'p(%sa%s).\n' % ('(' * 600, ')' * 600), 'as-library'),
     ('open-ended', 'wet(X) :- rain(X),\n', 'syntax'),
     ('multiline-clause', "longer(\n  'first\nsecond',\n  X\n) :-\n  true,\n  X = 'x'.\n", 'ok'),
 ]
-QUICK = ['facts', 'newlines', 'unicode', 'syntax-error', 'control', 'linebreaks', 'too-large', 'directives-discontiguous', 'control-characters', 'large-non-ascii', 'lexical-error', 'deep-parentheses']
+QUICK = ['facts', 'newlines', 'unicode', 'syntax-error', 'control', 'linebreaks', 'too-large', 'directives-discontiguous', 'control-characters', 'large-non-ascii', 'lexical-error', 'deep-parentheses', 'very-deep-parentheses']
 FLAGS = ['-d', '--debug-parser', '--debug-generator', '--debug-filename']
 
 
@@ -221,6 +222,11 @@ def run_shard(spec):
         for name, (text, kind) in table.items():
             lo, exc = lib_output(os.path.join(tmp, name + '.prolog'))
             cache[name] = (lo, exc)
+            if kind == 'as-library':
+                # near a size limit: whatever the library decides (all debug options off) is what the
+                # command line must decide for every combination of debug options
+                kind = 'ok' if exc is None else 'compile-error'
+                table[name] = (text, kind)
             if k == 0:
                 # the classification of the programs is itself checked against the library
                 acc.n['evaluations'] += 1
